@@ -337,9 +337,11 @@ void _ZN12SimpleString7replaceEPKcS1_(uint8_t* self, uint8_t* to, uint8_t* with)
 
 /* ---------------------------------------------------------------- the file seams */
 static uint32_t F_opened, F_closed, F_name_ok, F_flag_ok, F_wrong_handle;
+static uint32_t prelude;   /* 1: the run starts with another group whose file is not judged; 2: inside that file; 3: done */
 NATIVE_ONLY(static uint64_t stream_hash = 0xcbf29ce484222325ULL;)
 #define HANDLE ((uint8_t*)(uintptr_t)0x501)
 uint8_t* env_fopen(uint8_t* name, uint8_t* flag) {
+  if (prelude == 1) { prelude = 2; return HANDLE; }
   F_opened++;
   uint32_t same = 1, live = 1;
   for (uint32_t i = 0; i < FNCAP; i++) if (live) { if (name[i] != x_filename[i]) same = 0; if (!name[i] || !x_filename[i]) live = 0; }
@@ -350,13 +352,14 @@ uint8_t* env_fopen(uint8_t* name, uint8_t* flag) {
   return HANDLE;
 }
 void env_fputs(uint8_t* s, uint8_t* f) {
+  if (prelude == 2) return;
   if (f != HANDLE || F_opened != F_closed + 1) F_wrong_handle = 1;
   for (uint64_t i = 0; s[i]; i++) {
     reader_step(s[i]);
     NATIVE_ONLY(stream_hash = (stream_hash ^ s[i]) * 0x100000001b3ULL;)
   }
 }
-void env_fclose(uint8_t* f) { if (f != HANDLE) F_wrong_handle = 1; F_closed++; }
+void env_fclose(uint8_t* f) { if (prelude == 2) { prelude = 3; return; } if (f != HANDLE) F_wrong_handle = 1; F_closed++; }
 void env_flush(void) {}
 
 /* ---------------------------------------------------------------- inputs */
@@ -449,6 +452,8 @@ static void body_report(const int n, const int KINDS, const int SYM) {
 }
 /* texts: failure message and printed text symbolic (the XML encoding of character data and attribute values) */
 HARNESS(harness_msg_1_1) { body_report(1, 1, SY_FMSG); }
+/* the checked group is preceded, in the same run, by another group with a failing test */
+HARNESS(harness_after_failing_group_1_0) { h_prelude_failing_group(); prelude = 1; body_report(1, 0, SY_FMSG); }
 HARNESS(harness_two_failures_2_01) { second_failure_on_first_test = 1; body_report(2, 1 + 3 * 0, SY_FMSG); }
 HARNESS(harness_group_only_1_0) { body_report(1, 0, SY_GROUP); }
 HARNESS(harness_package_only_1_0) { body_report(1, 0, SY_PACKAGE); }
